@@ -158,10 +158,7 @@ def run(chk):
         if ok:
             proved, f2 = V.prove(chk, "C02", [])
             fails += f2
-        if not ok:
-            chk.violation({"property": "C02", "kind": "obligation no longer checks", "broken": [{"what": a, "name": b, "detail": c} for a, b, c in fails]}, no_input=True)
-            return
-        pkg = json.load(open(os.path.join(V.GEN, "pkg.json")))
+        pkg = CS.load_pkg(mmv)
         cases = []
         for sn in mmv.S:
             if sn == "LSPObject" or sn not in pkg["classes"]:
@@ -191,8 +188,8 @@ def run(chk):
         if p.returncode != 0:
             raise RuntimeError("r_ctor failed: " + p.stderr[-2000:])
         real = json.loads(p.stdout)["results"]
-        bad, nrows = model_unstr(cases, real)
-        chk.obligation("correspondence:Sem.unstr-vs-real-unstructure(constructor-built objects)", not bad, "%d objects, %d disagreements" % (nrows, len(bad)))
+        bad, nrows = model_unstr(cases, real) if ok else ([], 0)
+        chk.obligation("correspondence:Sem.unstr-vs-real-unstructure(constructor-built objects)", ok and not bad, "%d objects, %d disagreements" % (nrows, len(bad)))
         chk.extra["traces_validated_against_impl"] = nrows
         if bad:
             fails.append(("correspondence", "LSP.Sem.unstr vs converter", json.dumps({"target": cases[bad[0]]["target"], "input": cases[bad[0]]["input"]})[:1500]))
